@@ -25,6 +25,12 @@ class SpecFun:
         self.triggers = []
         self.ih = []        # extra induction-hypothesis instances
         self.assumed = False
+        self.decorated = False
+        for d in node.decorator_list:
+            if (isinstance(d, ast.Name) and d.id == 'spec') or (
+                    isinstance(d, ast.Call) and getattr(d.func, 'id', '')
+                    == 'spec'):
+                self.decorated = True
         for d in node.decorator_list:
             if isinstance(d, ast.Call) and getattr(d.func, 'id', '') == 'spec':
                 for kw in d.keywords:
@@ -95,6 +101,32 @@ class SpecLib:
                     continue
                 seen.add(c)
                 stack.extend(calls[c])
+        # a function gets an (uninterpreted symbol + unfolding) treatment iff
+        # it is decorated @spec; undecorated ones are always inlined.  Every
+        # recursion cycle must contain a decorated function.
+        for name, f in self.funs.items():
+            if f.is_lemma:
+                continue
+            if f.recursive and not f.decorated:
+                # is there a cycle through `name` avoiding decorated ones?
+                seen = set()
+                stack = [c for c in calls[name]
+                         if not self.funs[c].decorated]
+                bad = False
+                while stack:
+                    c = stack.pop()
+                    if c == name:
+                        bad = True
+                        break
+                    if c in seen:
+                        continue
+                    seen.add(c)
+                    stack.extend(x for x in calls[c]
+                                 if not self.funs[x].decorated)
+                if bad:
+                    raise SyntaxError('spec function %s is recursive without '
+                                      'a @spec function on the cycle' % name)
+            f.recursive = f.decorated
         self.lemmas = {n: f for n, f in self.funs.items() if f.is_lemma}
         for n in self.lemmas:
             del self.funs[n]
